@@ -6,6 +6,7 @@ import (
 	"math/big"
 	"math/rand"
 	"os"
+	"strings"
 
 	"github.com/consensys/gnark/frontend"
 	gl "github.com/wormhole-foundation/example-near-light-client/goldilocks"
@@ -140,6 +141,73 @@ func poseidonDrv(raw json.RawMessage, resp *drv.Response) error {
 				resp.Sample(map[string]any{"state": strsOf(st), "out0": got[0].String(), "mode": req.Mode})
 			}
 		}
+	case "glunique":
+		// "the permutation is a function": at sampled prover-supplied-value sites inside ONE permutation the model's adversarial
+		// alternatives must fail the local constraints (the same local verdict as C05's injection)
+		st := make([]*big.Int, 12)
+		for i := range st {
+			st[i] = drv.RandBelow(rng, bigP)
+		}
+		perm := func(cfg *engine.Config) error {
+			return hc.Run(cfg, st, func(api frontend.API, in []frontend.Variable) error {
+				var s poseidon.GoldilocksState
+				for i := range s {
+					s[i] = gl.NewVariable(in[i])
+				}
+				poseidon.NewGoldilocksChip(api).Poseidon(s)
+				return nil
+			})
+		}
+		h := &engine.Config{Mode: engine.Native}
+		if err := perm(h); err != nil {
+			return fmt.Errorf("honest permutation rejected: %s", firstLine(err))
+		}
+		total := h.Counters["hint:ReduceHint"] + h.Counters["hint:MulAddHint"] + h.Counters["hint:SplitLimbsHint"]
+		idx := map[int]bool{}
+		for i := 1; i <= 40 && i <= total; i++ {
+			idx[i] = true
+		}
+		for i := 0; i < 60+req.NRandom; i++ {
+			idx[1+rng.Intn(total)] = true
+		}
+		for g := range idx {
+			for _, strat := range []string{"k1", "k2", "q-1", "hi-1"} {
+				applied, trivial := false, false
+				cfg := &engine.Config{Mode: engine.Native, Permissive: true, AbortAfterLocal: true, TargetGlobal: g}
+				var site string
+				cfg.Strategy = func(c *engine.HintCall) []*big.Int {
+					applied = true
+					site = c.Name + "@" + c.Site
+					out := hintStrategy(strat, c)
+					if out == nil {
+						trivial = true
+						return nil
+					}
+					same := c.Honest != nil
+					for i := range out {
+						if same && new(big.Int).Mod(out[i], bigR).Cmp(c.Honest[i]) != 0 {
+							same = false
+						}
+					}
+					trivial = same
+					return out
+				}
+				_ = perm(cfg)
+				if !applied || trivial {
+					continue
+				}
+				resp.Count(fmt.Sprintf("glunique/%d/%s/%v", g, strat, st[0]), false)
+				if cfg.LocalAccepted {
+					short := site
+					if i := strings.Index(site, "<-poseidon.(*GoldilocksChip).Poseidon"); i > 0 {
+						short = site[:i]
+					}
+					resp.Violate("c09/unique/second-output site="+short+" strat="+strat,
+						fmt.Sprintf("hint %d of one permutation (%s): the alternative %s satisfies the local constraints - the permutation accepts a second output for the same input", g, site, strat), map[string]any{"global": g, "strat": strat})
+				}
+			}
+		}
+		resp.Sample(map[string]any{"hints_in_one_permutation": total, "sites_sampled": len(idx)})
 	case "glhash":
 		for n := 0; n <= req.MaxLen; n++ {
 			ms := []int{1 + rng.Intn(12), 4}
